@@ -265,8 +265,25 @@ func c15Judge(c *vlib.Ctx, f int, res c15Res, stream []byte, what string, checkA
 }
 
 // c15Bases returns valid files of every format with their kind.
+var c15FixtureCache [][2]any
+
 func c15Base(r *vlib.Rand) (f int, b []byte, cf *capgen.File) {
-	switch r.Intn(5) {
+	switch r.Intn(6) {
+	case 5:
+		// the capture fixtures of the repository: they hold the block kinds the library's writers never produce (simple
+		// and obsolete packet blocks, name resolution, custom and unknown blocks, big-endian sections)
+		if c15FixtureCache == nil {
+			for _, fx := range c15Fixtures() {
+				if len(fx[1].([]byte)) <= 8192 { // every base goes through 1-byte readers and every fault position
+					c15FixtureCache = append(c15FixtureCache, fx)
+				}
+			}
+		}
+		if n := len(c15FixtureCache); n > 0 {
+			fx := c15FixtureCache[r.Intn(n)]
+			return fx[0].(int), fx[1].([]byte), nil
+		}
+		fallthrough
 	case 0:
 		b, _ = snoopFile(r)
 		return fmtSnoop, b, nil
